@@ -123,6 +123,9 @@ func genC04(w *World, res *CheckResult) {
 		genInRange(w, tmp)
 		genInArray(w, tmp)
 		res.Obls = append(res.Obls, selectObls(tmp.Obls, `^optimizer\.in(Array|Range)\[.*\]/(safe:|post:shape$)`)...)
+		tmpr := &CheckResult{}
+		genConstRange(w, tmpr)
+		res.Obls = append(res.Obls, selectObls(tmpr.Obls, `^optimizer\.constRange/post:content$`, `^optimizer\.constRange\.Exit/`)...)
 		res.Functions = append(res.Functions, tmp.Functions...)
 	}
 	// (1c) string unescaping in the lexer runs outside any recover (parser.Parse calls lexer.Lex directly)
@@ -152,6 +155,11 @@ func genC04(w *World, res *CheckResult) {
 		tmp := &CheckResult{}
 		genCheckerConditional(w, tmp)
 		res.Obls = append(res.Obls, selectObls(tmp.Obls, `^checker\.ConditionalNode\[.*nil.*\]/covers-branches$`)...)
+		// the binary typing rule on operands without a static type (nil literal, nil-safe miss)
+		tmp3 := &CheckResult{Extra: map[string]interface{}{}}
+		genC03(w, tmp3)
+		res.Obls = append(res.Obls, selectObls(tmp3.Obls, `^checker\.BinaryNode\[[^,]+,(nil,[a-z0-9-]+|[a-z0-9-]+,nil)\]/sound$`)...)
+		res.Functions = append(res.Functions, "checker.visitor.BinaryNode")
 		res.Functions = append(res.Functions, "checker.visitor.ConditionalNode")
 		if fn, ct := w.Func("file.Source.updateOffsets"), w.Contracts["file.Source.updateOffsets"]; fn != nil && ct != nil {
 			e := NewExec(w)
